@@ -164,6 +164,14 @@ class Run:
         else:
             self.violations.append((key, msg, replay))
 
+    def canary_miss(self, name, caught):
+        """a canary without a 'detected' result: harness error, unless its edit no longer applies to the current source
+        (then the code under analysis changed exactly there and the canary is recorded as not applicable)"""
+        if name not in caught and '__not_applicable__' in caught:
+            self.sections.setdefault('canaries_not_applicable', []).append(name)
+            return
+        self.inconc('canary not detected: %s' % name)
+
     def inconc(self, what):
         self.inconclusive.append(str(what)[:500])
 
@@ -322,6 +330,11 @@ def _call(args):
         old = None
     try:
         return fn(item)
+    except CanaryNotApplicable as e:
+        r = worker_result()
+        r['canary_not_applicable'] = str(e)
+        r['canary'] = '__not_applicable__'
+        return r
     except ItemTimeout:
         r = worker_result()
         r['inconclusive'].append('work item exceeded %d s: %r' % (ITEM_TIMEOUT, str(item)[:200]))
@@ -353,12 +366,17 @@ def pmap(fn, items, jobs=16, chunksize=1):
             yield r
 
 
+class CanaryNotApplicable(Exception):
+    """the source no longer contains the text a canary edits (the code under analysis changed there)"""
+
+
 def mutant_module(mod, edits, name=None):
     """in-memory canary: a copy of module `mod` with textual edits applied to its source
     (never written to /repo).  Every edit must apply exactly once."""
     src = inspect.getsource(mod)
     for old, new in edits:
-        assert src.count(old) == 1, 'canary edit does not apply exactly once: %r (%d)' % (old, src.count(old))
+        if src.count(old) != 1:
+            raise CanaryNotApplicable('canary edit does not apply exactly once: %r (%d)' % (old[:80], src.count(old)))
         src = src.replace(old, new)
     m = types.ModuleType(name or (mod.__name__ + '__canary'))
     m.__file__ = mod.__file__
